@@ -6,25 +6,37 @@ root sums, merge = build of the union in every order, layout mechanism = definit
 a case; TLC prints the case with the spec's expected trees / merged tree / layouts (MC_ProfTree!Export); harness/cmd/c16
 concretises each case into real pprof profiles, pushes them through the REAL /ingest parsers and the REAL reader
 MergeTrie + BFS in many profile/row orders, and compares.  A seeded sample of the non-canonical row orders with what the
-real code produced is validated by TLC against the spec (MC_ProfTreeObs)."""
+real code produced is validated by TLC against the spec (MC_ProfTreeObs).
+
+Depth: the spec has the level clamp of getNodeId as a constant (LevelCap) and enumerates stacks below / at / beyond it;
+it defines depth stretching (every level of every call path becomes a chain of R[l] frames: recursion, mutual recursion
+or distinct functions) and TLC proves on the small cases that building, merging and laying out commute with it
+(StretchHom, StretchLayout).  The driver runs a seeded part of the cases (and all of the cases of the configurations
+marked deep) a second time stretched by that map to REAL depths: the abstract level LevelCap becomes the writer's real
+level clamp (probed from the node ids; 511) or its neighbours / other bit-width boundaries, the levels beyond it 1 to
+thousands of frames; the real stored tree, merged tree, totals and layout are compared with the stretched expectation
+and the statement's conservation / root-sum clauses are read off the real rows directly."""
 import concurrent.futures
 import json
 import os
 import re
 import shutil
+import time
 
 import vlib
 
 SPECDIR = os.path.join(vlib.SPEC, 'ingest')
 
 INVS = ('BuildMechEqDef TreeWellFormed Conservation RootSumStacked MergeEqBuildUnion MergeCommAssoc ReaderMergeEqDef '
-        'RowsCommute FlameTotals LayoutMechEqDef LayoutNested Export')
+        'RowsCommute FlameTotals LayoutMechEqDef LayoutNested KeyInjective SelfSumStacked StretchHom StretchLayout Export')
 
 CFG = '''SPECIFICATION Spec
 CONSTANTS
   FnSeq <- %(fn)s
   K = %(K)d
   MaxDepth = %(depth)d
+  LevelCap = %(cap)d
+  StretchPlans <- %(plans)s
   MinVal = %(minv)d
   MaxVal = %(maxv)d
   MaxProfiles = %(P)d
@@ -41,6 +53,8 @@ CONSTANTS
   FnSeq <- MCFnObs
   K = %(K)d
   MaxDepth = 9
+  LevelCap = 2
+  StretchPlans <- MCNoPlans
   MinVal = 0
   MaxVal = 9
   MaxProfiles = 9
@@ -50,7 +64,10 @@ INVARIANTS ObsChecked BuildMechEqDef Conservation MergeEqBuildUnion
 CHECK_DEADLOCK FALSE
 '''
 
-# name -> bounds; mod = export every mod-th case (by CaseHash + seed), workers = TLC worker threads
+# name -> bounds; mod = export every mod-th case (by CaseHash + seed), workers = TLC worker threads; cap = LevelCap (the
+# abstract level that stands for the level clamp of the node ids: stacks of depth < cap, = cap, > cap are all enumerated);
+# plans = the stretch plans StretchHom / StretchLayout are checked for (default none); deep = every deep-th case of the
+# configuration (by content hash and seed) is also replayed depth-stretched (of the others: every DEEPMOD-th)
 CONFIGS = {
     'quick': [
         # one profile, <= 3 samples, depth <= 3 over 2 functions (recursion + shared frames), values 1..2: 5457 cases
@@ -62,6 +79,10 @@ CONFIGS = {
         ('M2', dict(fn='MCFn2', K=1, depth=3, minv=0, maxv=2, P=2, S=2, T=2, mod=1, workers=3)),
         # three profiles
         ('M3', dict(fn='MCFn2', K=1, depth=3, minv=1, maxv=1, P=3, S=1, T=3, mod=1, workers=3)),
+        # the depth dimension: stacks up to two levels beyond the clamp level, stretching commutes with build/merge/layout
+        ('D4', dict(fn='MCFn2', K=1, depth=4, cap=2, plans='MCPlans5', minv=1, maxv=1, P=1, S=2, T=2, mod=1, workers=3, deep=2)),
+        # two sample types, two profiles, all three stretch plans
+        ('H3', dict(fn='MCFn2', K=2, depth=3, cap=2, plans='MCPlans3', minv=1, maxv=1, P=2, S=1, T=2, mod=1, workers=2, deep=1)),
     ],
     'thorough': [
         ('S3', dict(fn='MCFn2', K=1, depth=3, minv=0, maxv=2, P=1, S=3, T=3, mod=2, workers=8)),
@@ -75,6 +96,10 @@ CONFIGS = {
         ('M2K2', dict(fn='MCFn2', K=2, depth=2, minv=0, maxv=1, P=2, S=2, T=3, mod=2, workers=8)),
         ('D4', dict(fn='MCFn2', K=1, depth=4, minv=1, maxv=2, P=1, S=3, T=3, mod=3, workers=8)),
         ('F3', dict(fn='MCFn3', K=1, depth=3, minv=1, maxv=1, P=2, S=2, T=3, mod=4, workers=8)),
+        ('D5', dict(fn='MCFn2', K=1, depth=5, cap=3, plans='MCPlans5', minv=1, maxv=2, P=1, S=2, T=2, mod=2, workers=8, deep=4)),
+        ('D5m', dict(fn='MCFn2', K=1, depth=5, cap=3, plans='MCPlans5', minv=1, maxv=1, P=2, S=1, T=2, mod=1, workers=8, deep=4)),
+        ('H3', dict(fn='MCFn2', K=2, depth=3, cap=2, plans='MCPlans3', minv=0, maxv=1, P=2, S=2, T=2, mod=2, workers=8, deep=4)),
+        ('H3s', dict(fn='MCFn2', K=1, depth=3, cap=2, plans='MCPlans3', minv=1, maxv=2, P=1, S=3, T=3, mod=4, workers=8, deep=4)),
     ],
 }
 # the statement's root-sum clause on ALL samples (empty stacks included): expected to yield a candidate counterexample
@@ -82,14 +107,23 @@ ROOTSUM = dict(fn='MCFn2', K=1, depth=1, minv=0, maxv=1, P=1, S=2, T=2, mod=0, w
 
 CLASSES_REQUIRED = ['empty_stack_sample', 'recursive_stack', 'sample_with_lineless_location', 'multi_profile_case',
                     'merge_with_shared_nodes', 'node_with_self_and_children', 'cases_with_all_row_orders',
-                    'profile_without_samples']
+                    'profile_without_samples',
+                    # the depth dimension
+                    'stretched_cases', 'stretched_cases_through_reader', 'abstract_stack_below_cap', 'abstract_stack_at_cap',
+                    'abstract_stack_beyond_cap', 'real_stack_below_level_clamp', 'real_stack_at_level_clamp',
+                    'real_stack_one_beyond_level_clamp', 'real_stack_beyond_level_clamp', 'real_stack_of_thousands_of_frames',
+                    'level_stretched_by_recursion', 'level_stretched_by_distinct_functions',
+                    'level_stretched_by_mutual_recursion']
+DEEPMOD = {'quick': 48, 'thorough': 32}
+DEFAULTS = dict(cap=2, plans='MCNoPlans', deep=0)
 
 _CASE = re.compile(r'^<<"C16CASE", (".*")>>$')
 
 
 def _tlc_config(name, c, invs, sd, timeout, dump=None):
     cfgp = os.path.join(sd, 'MC_ProfTree_%s.cfg' % name)
-    d = dict(c)
+    d = dict(DEFAULTS)
+    d.update(c)
     d['seed'] = vlib.seed() % max(1, c['mod'])
     d['invs'] = invs
     open(cfgp, 'w').write(CFG % d)
@@ -119,13 +153,15 @@ def _model_check(name, c, sd, casefile_dir, timeout):
                 except ValueError as e:
                     raise vlib.Infra('cannot parse an exported case of %s: %s: %s' % (name, e, line[:300]))
                 case['cfg'] = name
+                if c.get('deep'):
+                    case['deep'] = c['deep']
                 lines.append(json.dumps(case))
                 n += 1
             if n == 0 or (c['mod'] > 1 and n < res.get('distinct', 0) // (4 * c['mod'])):
                 raise vlib.Infra('config %s exported %d of %d cases (mod %d): export sampling is degenerate' % (name, n, res.get('distinct', 0), c['mod']))
             lines.sort()    # TLC's workers print in a scheduling-dependent order
             o.write('\n'.join(lines) + ('\n' if lines else ''))
-        return {'config': name, 'bounds': {k: v for k, v in c.items() if k != 'workers'}, 'states': res.get('distinct', 0),
+        return {'config': name, 'bounds': {k: v for k, v in dict(DEFAULTS, **c).items() if k != 'workers'}, 'states': res.get('distinct', 0),
                 'transitions': res.get('generated', 0), 'exported': n, 'wall_s': round(res['wall'], 1), 'cases': path}
     finally:
         vlib.tlc_cleanup(res)
@@ -184,6 +220,8 @@ def run(tier):
     viols = []
     try:
         configs = CONFIGS[tier]
+        t0 = time.time()
+        phases = {}
         tmo = 300 if tier == 'quick' else 3000
         with concurrent.futures.ThreadPoolExecutor(max_workers=len(configs) + 2) as ex:
             fb = ex.submit(vlib.go_build, 'cmd/c16', 'c16')
@@ -198,10 +236,11 @@ def run(tier):
                     mcs = [f.result() for f in futs]
             binp = fb.result()
             rootsum = fr.result()
+        phases['tlc_enumeration'] = round(time.time() - t0, 1)
         # ---- replay all exported cases into the real code
         allcases = os.path.join(sd, 'cases.ndjson')
         with open(allcases, 'w') as o:
-            for mc in mcs:
+            for mc in sorted(mcs, key=lambda m: 0 if m['bounds'].get('deep') else 1):   # the stretched (long) cases first
                 cp = mc.pop('cases')
                 with open(cp) as f:
                     shutil.copyfileobj(f, o)
@@ -212,9 +251,12 @@ def run(tier):
         obsdir = os.path.join(sd, 'obs')
         os.makedirs(obsdir)
         resp = os.path.join(sd, 'result.json')
-        args = [binp, 'run', '-cases', allcases, '-out', resp, '-obs', obsdir, '-seed', str(vlib.seed())]
+        args = [binp, 'run', '-cases', allcases, '-out', resp, '-obs', obsdir, '-seed', str(vlib.seed()), '-deepmod', str(DEEPMOD[tier])]
         args += ['-permmax', '6', '-allperms', '24', '-obsmax', '1500'] if tier == 'quick' else ['-permmax', '24', '-allperms', '120', '-obsmax', '8000']
+        t1 = time.time()
         r = vlib.run_cmd(args, timeout=600 if tier == 'quick' else 3000)
+        phases['driver'] = round(time.time() - t1, 1)
+        t1 = time.time()
         if r.returncode != 0 or not os.path.exists(resp):
             raise vlib.Infra('c16 driver failed (rc %s): %s' % (r.returncode, (r.stdout + r.stderr)[-3000:]))
         result = json.load(open(resp))
@@ -267,6 +309,7 @@ def run(tier):
             nobs += o['observations'] - len(o['rejected'])
             o['rejected'] = len(o['rejected'])
             obsres.append(o)
+        phases['tlc_observations'] = round(time.time() - t1, 1)
         if nobs == 0 and not viols:
             raise vlib.Infra('no observation of the real reader was validated')
         sample = result.get('sample')
@@ -276,7 +319,9 @@ def run(tier):
                'samples': [sample] if sample else [result['mismatches'][0] if result['mismatches'] else {'cases': ncases}],
                'exhaustive': all(mc['bounds']['mod'] == 1 for mc in mcs),
                'model_check': mcs, 'rootsum_all_samples': rootsum,
-               'cases_replayed': ncases, 'distinct_nontrivial': result['distinct_nontrivial'],
+               'phase_wall_s': phases, 'cases_replayed': ncases, 'distinct_nontrivial': result['distinct_nontrivial'],
+               'cases_replayed_depth_stretched': result['classes'].get('stretched_cases', 0),
+               'stretched_tree_nodes_compared': result.get('stretched_nodes_expected', 0), 'level_clamp': result.get('level_clamp'),
                'profiles_built': result['profiles'], 'real_parser_runs': result['parses'], 'real_merge_runs': result['merge_runs'],
                'canonical_layouts_compared': result['canon_layouts'], 'classes': result['classes'],
                'names_used': result['name_pool_used'], 'row_orders_per_case_max': result['orders_per_case_max'],
@@ -284,8 +329,11 @@ def run(tier):
                'aux_not_part_of_C16': result['aux'],
                'checker_cmd': 'tlc MC_ProfTree (x%d configs) -> c16 run -> tlc MC_ProfTreeObs' % len(mcs)}
         return {'level': 'model_checking', 'coverage': cov, 'violations': viols,
-                'assumptions': ['node ids (city hash of parent id, function id, depth) are modelled as injective: the id is the root-first call path; '
-                                'hash collisions and the depth clamp at 511 are outside the model',
+                'assumptions': ['node ids (city hash of parent id and function id, level clamped at LevelCap on top) are modelled as injective in '
+                                '(parent, function): the id is the root-first call path, hash collisions are outside the model; the level clamp is '
+                                'in the model (Key, KeyInjective) and stacks below / at / beyond it are enumerated',
+                                'real depths are reached by stretching the enumerated cases (ProfTree!SBag/STree/SRows/SLevels, proved to commute with '
+                                'build / merge / layout on the small cases by StretchHom / StretchLayout), not by enumerating deep stacks frame by frame',
                                 'the ClickHouse step between writer and reader is replaced by the driver: rows [parent, fn, node, self, total] of the '
                                 'selected sample type (arrayFirst by "type:unit"), raw per profile or summed per (parent, fn, node) ordered by parent',
                                 'one reader Tree per sample type, as ProfService.getTree builds it; trailing empty BFS levels are ignored',
